@@ -126,8 +126,10 @@ class TC(fm.TimeComponent):
             vals.append(round(float(np.ravel(fm.data.get_magnitude(v))[0]), 9))
         self._time = nt
         self.tr.events.append(("got", self.idx, hours(nt), vals))
+        # "mix": the published value depends on what was pulled, so that a wrong value propagates downstream (C05)
+        extra = 0.001 * sum(vals) if self.spec.get("mix") else 0.0
         for o in range(self.nout):
-            self.outputs[f"Out{o}"].push_data(self.value(nt) + 0.5 * o, nt)
+            self.outputs[f"Out{o}"].push_data(self.value(nt) + 0.5 * o + extra, nt)
         self.tr.current = None
 
     def _finalize(self):
